@@ -145,7 +145,10 @@ pub fn on_trans(tc: &TransCtx, sink: &mut Sink) {
             c17_attributes(tc, a, post, sink);
             c05_authorization(tc, sink);
         }
-        Outcome::Refused(_) => sink.cs(format!("refused/{kind}")),
+        Outcome::Refused(e) => {
+            sink.cs(format!("refused/{kind}"));
+            c13_integrality(tc, e, sink);
+        }
         Outcome::Aborted => sink.cs(format!("aborted/{kind}")),
     }
     match &tc.act.req {
@@ -159,6 +162,38 @@ pub fn on_trans(tc: &TransCtx, sink: &mut Sink) {
         Req::CreateAsk { .. } | Req::CreateBid { .. } => c07_admission(tc, sink),
         Req::ApproveAsk { .. } => c08_approve(tc, sink),
         Req::Modify(m) => c12_modify(tc, m, sink),
+    }
+}
+
+/// C13 consequence: an admissible price times a lot-multiple size is never refused as fractional
+fn c13_integrality(tc: &TransCtx, err: &str, sink: &mut Sink) {
+    if !err.contains("must be an integer") {
+        return;
+    }
+    let info = match tc.info() {
+        Some(i) => i,
+        None => return,
+    };
+    let inc = info.increment();
+    if inc == 0 {
+        return;
+    }
+    let ok_price = |p: &str| parse_dec(p).map_or(false, |x| x.is_pos() && within_precision(x, info.precision()));
+    let (size, price): (Option<u128>, Option<&str>) = match &tc.act.req {
+        Req::CreateAsk { size, price, .. } | Req::CreateBid { size, price, .. } => (Some(*size), Some(price)),
+        Req::Match { size, price, .. } => (Some(*size), Some(price)),
+        Req::RejectAsk { size, .. } | Req::RejectBid { size, .. } => (*size, None),
+        _ => (None, None),
+    };
+    let lot = size.map_or(true, |s| s % inc == 0);
+    let adm = price.map_or(true, ok_price);
+    sink.c("C13/non-integer-total-refusals-seen");
+    if lot && adm {
+        sink.v(
+            "C13",
+            format!("C13/integrality/fractional-total-for-admissible-price-and-lot-size/{}", tc.act.req.kind()),
+            format!("{err}; precision {} increment {inc}", info.precision()),
+        );
     }
 }
 
@@ -963,6 +998,41 @@ fn c02_c03_match(tc: &TransCtx, sink: &mut Sink) {
                     format!("expected one of {expected:?}, observed {:?}; ask {ask:?} bid {bid:?}", tc.net),
                 );
             }
+            // C09: the fee amounts themselves (observable when the fee account is nobody else)
+            {
+                let mut parties: Vec<&str> = vec![&ask.owner, &bid.owner];
+                if let AskClass::Ready { approver, .. } = &ask.class {
+                    parties.push(approver);
+                }
+                let askacct = info.ask_fee_info.as_ref().map(|f| f.account.as_str());
+                let bidacct = info.bid_fee_info.as_ref().map(|f| f.account.as_str());
+                let to = |acct: &str| -> u128 { a.flows.iter().filter(|f| f.from == CONTRACT && f.to == acct).map(|f| f.amount).sum() };
+                if let Some(acct) = askacct {
+                    if !parties.contains(&acct) && Some(acct) != bidacct {
+                        sink.c("C09/match/ask-fee-compared");
+                        if to(acct) != r.ask_fee {
+                            sink.v("C09", "C09/match/ask-fee-not-rate-times-executed-amount".into(), format!("paid {}, rate {:?} x gross {} rounds to {}", to(acct), info.ask_fee_info, r.gross, r.ask_fee));
+                        }
+                    }
+                }
+                if let Some(acct) = bidacct {
+                    if !parties.contains(&acct) && Some(acct) != askacct && !r.fee_pairs.is_empty() {
+                        sink.c("C09/match/bid-fill-fee-compared");
+                        if !r.fee_pairs.iter().any(|p| p.0 == to(acct)) {
+                            sink.v("C09", "C09/match/fill-fee-not-pro-rata".into(), format!("paid {}, acceptable (paid, refunded) pairs {:?}; bid {bid:?}", to(acct), r.fee_pairs));
+                        }
+                    }
+                }
+                if !r.fee_pairs.is_empty() {
+                    let out_q: i128 = -tc.net.get(&(CONTRACT.to_string(), bid.quote_denom.clone())).copied().unwrap_or(0);
+                    if post.bids.get(bid_id).is_none() {
+                        let want = bid.rem_quote().unwrap_or(0) as i128 + bid.rem_fee().unwrap_or(0) as i128;
+                        if out_q != want {
+                            sink.v("C09", "C09/match/closing-bid-does-not-release-its-whole-fee".into(), format!("quote-denomination outflow {out_q}, unspent quote + held fee {want}; bid {bid:?}"));
+                        }
+                    }
+                }
+            }
             // remaining amounts fall by exactly these quantities
             let qa = post.asks.get(ask_id);
             let exp_ask_size = ask.size - size;
@@ -1249,6 +1319,10 @@ fn c04_reversal(tc: &TransCtx, sink: &mut Sink) {
                 }
             } else {
                 sink.c("C09/bid-closed-by-reversal");
+                let out_q: i128 = -tc.net.get(&(CONTRACT.to_string(), bid.quote_denom.clone())).copied().unwrap_or(0);
+                if out_q != (rq + held) as i128 {
+                    sink.v("C09", format!("C09/{kind}/closing-bid-does-not-release-its-whole-fee"), format!("quote-denomination outflow {out_q}, unspent quote + held fee {}; bid {bid:?}", rq + held));
+                }
             }
         }
         _ => {}
@@ -1428,6 +1502,9 @@ fn c07_admission(tc: &TransCtx, sink: &mut Sink) {
         (_, None) => sink.cs(format!("no-verdict/{kind}/undecided-shape")),
         (Outcome::Accepted(a), Some(false)) => {
             for f in failed {
+                if f == "fee-amount-not-the-rate" || f == "fee-absent-but-due" || f == "fee-denomination-not-quote" {
+                    sink.v("C09", format!("C09/{kind}/escrowed-fee-not-rate-times-total/{f}"), format!("{}", tc.act.json));
+                }
                 sink.v("C07", format!("C07/{kind}/admitted-although/{f}"), format!("funds {:?}", tc.act.funds));
             }
             let _ = a;
